@@ -23,7 +23,7 @@ _pbase.threading = types.SimpleNamespace(RLock=e3.CoopRLock, Lock=e3.CoopRLock)
 
 ID = "C20"
 LEVEL = "model_checking"
-RULE = ("schedules: for each of 10 scenarios (first parse of classes with pending forward references - module level and "
+RULE = ("schedules: for each of 12 scenarios (first parse of classes with pending forward references - module level and "
         "function-local; first parse of mutually recursive classes from both ends; conversions racing a registration in "
         "the shared converter registry; first calls of a decorated function with forward-referenced types; concurrent "
         "decoration of one function) every interleaving of 2 threads with at most 1 preemption (quick); of 2 threads with at "
@@ -146,6 +146,25 @@ def make():
 Shelf, Cover, Hard = make()
 '''
 
+SRC_SHARED_ALIAS = '''
+from utmc.ns import *
+class A(Schema):
+    lines: List['Item'] = Field(default_factory=list)
+class B(Schema):
+    lines: List['Item'] = Field(default_factory=list)
+    first: Optional['Item'] = None
+class Item(Schema):
+    v: int
+'''
+# a warm cache entry for Sub (converted once before the threads start) and a registration for an unrelated class
+SRC_REG_WARM = SRC_REG + '''
+class Other:
+    pass
+def other_converter(transformer, data, t):
+    return t()
+type_transform(0, Sub)
+'''
+
 A_IN = {"v": "1", "bs": [{"w": "2", "a": {"v": 3}}], "ob": {"w": 4}}
 B_IN = {"w": "5", "a": {"v": 6, "bs": [{"w": 7}]}, "more": {"k": {"w": 8}}}
 B_LOCAL_IN = {"w": "5", "a": {"v": 6, "bs": [{"w": 7}]}}
@@ -178,6 +197,11 @@ SCENARIOS = {
                                         "Shelf(kind=Hard).kind.__name__"], "Shelf(kind=Cover, kinds=[Hard, Cover]).kind.__name__"),
     "type-ref-first-parse-local": (SRC_TYPE_LOCAL, ["Shelf(kind=Hard).kind.__name__", "Shelf(kind=Cover, cover={'v': '1'}).cover.v",
                                                     "Shelf(kind=Hard).kind.__name__"], "Shelf(kind=Cover).kind.__name__"),
+    # two classes spell the same reference identically: typing hands both the same ForwardRef object, each has its own parser
+    "shared-alias-two-classes": (SRC_SHARED_ALIAS, ["A.__from__({'lines': [{'v': '1'}]}).lines[0].v", "B.__from__({'lines': [{'v': 2}], 'first': {'v': '3'}}).first.v",
+                                                    "A.__from__({'lines': [{'v': '1'}]}).lines[0].v"], "B.__from__({'lines': [{'v': 4}]}).lines[0].v"),
+    "registry-race-warm": (SRC_REG_WARM, ["type_transform(1, Sub)", "type_transform(2, Sub)", "utype.register_transformer(Other)(other_converter) and None"],
+                           "type_transform(2, Sub)"),
     "registry-race": (SRC_REG, ["type_transform(1, Sub)", "type_transform(2, Sub)", "utype.register_transformer(Sub)(new_converter) and None"],
                       "type_transform(2, Sub)"),
 }
@@ -232,7 +256,7 @@ def solo_outcomes(name, nthreads):
             except Exception as e:
                 r = ("exc", e)
             allowed = {outcome(r)}
-            if name == "registry-race" and i < 2:
+            if name.startswith("registry-race") and i < 2:
                 # linearizable: the conversion runs entirely before or entirely after the registration
                 mod2 = fresh(src)
                 eval(calls[2], mod2.__dict__)
@@ -275,14 +299,14 @@ def run_shard(shard, tier):
     name, k, parts, nthreads, bound = shard
     acc = Acc()
     src, calls, after = SCENARIOS[name]
-    if name == "registry-race":
+    if name.startswith("registry-race"):
         order = [0, 2, 1] if nthreads == 3 else [0, 2]       # the registering thread always takes part
     else:
         order = list(range(nthreads))
     solo = solo_outcomes(name, 3)
     with RegistryGuard():
         m = fresh(src)
-        if name == "registry-race":
+        if name.startswith("registry-race"):
             eval(calls[2], m.__dict__)
         try:
             after_want = outcome(("ok", eval(after, m.__dict__)))
@@ -354,7 +378,7 @@ def _script(name, nthreads, choices):
         "import sys", "sys.path.insert(0, '/verif')", "from utmc.props import c20", "from utmc import e3",
         f"name, nthreads, choices = {name!r}, {nthreads!r}, {choices!r}",
         "src, calls, after = c20.SCENARIOS[name]",
-        "order = ([0, 2, 1] if nthreads == 3 else [0, 2]) if name == 'registry-race' else list(range(nthreads))",
+        "order = ([0, 2, 1] if nthreads == 3 else [0, 2]) if name.startswith('registry-race') else list(range(nthreads))",
         "solo = c20.solo_outcomes(name, 3)", "state = {}",
         "def make_bodies():", "    g = c20.RegistryGuard(); g.__enter__(); mod = c20.fresh(src); state['g'] = g",
         "    return [(lambda expr=calls[i], d=mod.__dict__: eval(expr, d)) for i in order]",
